@@ -92,6 +92,8 @@ func c38(c *Ctx) {
 	c.Expect(1, len(rbw), "batch.Write in reorg")
 	c.Followed("deletes-written", ro, dels, "index-delete", rbw, "batch.Write()", c.SuccessReturns(ro))
 	c.Dom("purge-after-write", ro, c.Calls(ro, "(*common/lru.Cache[K, V]).Purge"), "txLookupCache.Purge", GErrChecked("batch.Write() (fatal on error)", rbw))
+	// every reorg that deleted index entries ends with the lookup cache emptied
+	c.Followed("cache-purged", ro, rbw, "batch.Write", c.Calls(ro, "(*common/lru.Cache[K, V]).Purge"), "bc.txLookupCache.Purge()", c.SuccessReturns(ro))
 	c.Rule("SAMEVAL/C38.lookup")
 	c.Each("difference", ro, c.Calls(ro, "core/rawdb.DeleteTxLookupEntry"), "DeleteTxLookupEntry", func(s Site) (bool, string) {
 		as := callArgs(s.Instr.(*ssa.Call).Common())
